@@ -83,6 +83,7 @@ type SpecDB struct {
 	Axioms  []*AxiomDecl
 	Globals []*GlobalInv
 	Files   []string
+	words   map[string]bool
 }
 
 func NewSpecDB() *SpecDB {
@@ -91,7 +92,7 @@ func NewSpecDB() *SpecDB {
 
 var clauseKeywords = map[string]bool{
 	"property": true, "pure": true, "axiom": true, "ghost": true, "global": true, "func": true, "extern": true,
-	"requires": true, "ensures": true, "modifies": true, "loop": true, "canary": true, "flag": true,
+	"fieldspec": true, "requires": true, "ensures": true, "modifies": true, "loop": true, "canary": true, "flag": true,
 	"inline": true, "trusted": true, "assume": true,
 }
 
@@ -319,12 +320,16 @@ func (db *SpecDB) LoadFile(file string, defaultPkg string) error {
 			}
 			db.Globals = append(db.Globals, &GlobalInv{PkgName: pkgName, E: e, Text: rest})
 			cur = nil
-		case "extern", "func":
+		case "extern", "func", "fieldspec":
 			hdr := t
 			ext := false
 			if word == "extern" {
 				ext = true
 				hdr = strings.TrimSpace(rest)
+			}
+			if word == "fieldspec" {
+				ext = true
+				hdr = "func " + strings.TrimSpace(rest)
 			}
 			m := headerRe.FindStringSubmatch(hdr)
 			if m == nil {
@@ -338,7 +343,7 @@ func (db *SpecDB) LoadFile(file string, defaultPkg string) error {
 				} else {
 					key = pkgName + "." + recvType + "." + name
 				}
-			} else if strings.Contains(name, ".") && ext {
+			} else if strings.Contains(name, ".") && ext && word != "fieldspec" {
 				key = name
 			} else {
 				key = pkgName + "." + name
@@ -368,6 +373,9 @@ func (db *SpecDB) LoadFile(file string, defaultPkg string) error {
 					}
 				}
 			}
+			if word == "fieldspec" {
+				fs.Flags["fieldspec"] = "1"
+			}
 			if old := db.Funcs[key]; old != nil {
 				return errf(rc, "duplicate contract for %s (also at %s:%d)", key, old.File, old.Line)
 			}
@@ -376,6 +384,9 @@ func (db *SpecDB) LoadFile(file string, defaultPkg string) error {
 		case "requires", "ensures", "canary":
 			if cur == nil {
 				return errf(rc, "%s outside a func", word)
+			}
+			if word == "canary" {
+				rest = strings.TrimSpace(strings.TrimPrefix(rest, "ensures"))
 			}
 			c, err := mkClause(rc, word, rest)
 			if err != nil {
@@ -463,4 +474,27 @@ func (db *SpecDB) LoadFile(file string, defaultPkg string) error {
 		}
 	}
 	return nil
+}
+
+// mentionsWord: does any contract file mention the identifier (as a whole word)?
+func (db *SpecDB) mentionsWord(w string) bool {
+	if db.words == nil {
+		db.words = map[string]bool{}
+		re := regexp.MustCompile(`[A-Za-z_][A-Za-z0-9_]*`)
+		for _, f := range db.Files {
+			data, err := os.ReadFile(f)
+			if err != nil {
+				continue
+			}
+			for _, line := range strings.Split(string(data), "\n") {
+				t := strings.TrimSpace(line)
+				if strings.HasPrefix(t, "//@") {
+					for _, m := range re.FindAllString(t, -1) {
+						db.words[m] = true
+					}
+				}
+			}
+		}
+	}
+	return db.words[w]
 }
